@@ -97,7 +97,7 @@ Corollary cycle_check_spec tuples h root fuel rejected :
   has_cycle tuples fuel h [] root = Some rejected ->
   cycle_check_ok h root rejected = true.
 Proof.
-  intros G H. unfold cycle_check_ok. destruct rejected; [reflexivity|]. simpl.
+  intros G H. unfold cycle_check_ok. destruct rejected; [reflexivity|].
   eapply cycle_check_sound; eassumption.
 Qed.
 
